@@ -316,6 +316,9 @@ class World:
             if exc is None and 'destroyed but it is pending' in msg:
                 return
             self.errors[i].append((repr(exc) if exc is not None else msg))
+            if exc is not None and os.environ.get('VERIF_TRACEBACK'):
+                import traceback
+                self.errors[i].append(''.join(traceback.format_exception(type(exc), exc, exc.__traceback__))[-1500:])
         return handler
 
     # ---- party switching -----------------------------------------------------------------
